@@ -267,6 +267,7 @@ var c04Corpus = []c04Pinned{
 		extra: map[string]string{"refs/q.json": c04OA + `{"D":{"type":"object","properties":{"a":{"$ref":"#/components/schemas/D"}}}}}}`}},
 	{name: "openapi-null-list-element", format: "openapi", text: c04OA + `{"A":{"allOf":[null,{"type":"object"}]},"B":{"oneOf":[null]},"C":{"type":"object","additionalProperties":null},"D":{"type":"array","items":null}}}}`},
 	{name: "cue-self-alias", format: "cue", text: "#A: #A\nb: #A\n"},
+	{name: "cue-self-referential-field", format: "cue", langs: []string{"go"}, text: "#a: #A & {x: 1}\n#A: {x: #A.x}\n"},
 	{name: "cue-recursive-array", format: "cue", langs: []string{"go"}, text: "container: {\n    m: {[string]: #A}\n    n: int\n}\n\n#A: [...#A]\n"},
 	{name: "openapi-self-anyof-validated", format: "openapi", validate: true, text: c04OA + `{"Array":{"type":"array","items":{"type":"string"},"default":["anything"],"discriminator":{"propertyName":"type"},"anyOf":[{"type":"string"},{"$ref":"#/components/schemas/Array"},{"type":"array","items":{"type":"integer"}}]}}}}`},
 	{name: "openapi-empty-enum", format: "openapi", text: c04OA + `{"E":{"type":"string","enum":[]},"S":{"type":"object","properties":{"e":{"$ref":"#/components/schemas/E"}}}}}}`},
